@@ -266,7 +266,7 @@ Lemma sys_cpu_cycle_safe c s : Safe (c, s) ->
   Pend (snd (sys_cpu_cycle (c, s))) /\ outcome_ok (fst (sys_cpu_cycle (c, s))).
 Proof.
   intros (H1 & H2 & H3 & H4). cbn [fst snd] in *. unfold sys_cpu_cycle.
-  apply (cycle_safe sys bus_rd bus_wr bus_trig bus_ime bus_set_ime bus_pending bus_ack Pmid TrueA).
+  apply (cycle_safe sys bus_rd bus_wr bus_trig bus_ime bus_set_ime bus_pending bus_ack Pmid TrueA TrueA).
   - intros b a Hb Ha _. apply bus_rd_mid; assumption.
   - intros b a v Hb Ha _ Hv. apply bus_wr_mid; assumption.
   - intros b a Hb _ _. apply bus_trig_mid; assumption.
@@ -276,6 +276,7 @@ Proof.
   - intros b v Hb. apply bus_set_ime_end; assumption.
   - exact bus_corrupt_end.
   - exact gen_tables_ok.
+  - intros a. exact I.
   - intros a. exact I.
   - exact H1.
   - exact H2.
@@ -420,6 +421,11 @@ Proof.
     rewrite ?E1, ?E2, ?E3, ?E4, ?E5, ?E6, ?E7, ?E8, ?E9, ?E10; reflexivity.
 Qed.
 
+Lemma uop_waddrs_sub u s a : In a (uop_waddrs u s) -> In a (uop_addrs u s).
+Proof.
+  destruct u; try destruct p; cbn [uop_waddrs uop_addrs In get_rp]; tauto.
+Qed.
+
 Definition first_ok (l : list uop) : bool :=
   match l with
   | [] => true
@@ -455,7 +461,7 @@ Proof.
   { unfold cycle, next, check_interrupts, run_uop. cbn [fst snd fault cpu_init is_finished early cyc cur length Nat.eqb].
     rewrite Hpend. cbn [N.eqb fst snd eip set_eip halted stopped orb cpu_init]. reflexivity. }
   rewrite Ecyc. clear Ecyc.
-  pose proof (fetch_safe sys bus_rd bus_wr bus_trig bus_ime bus_set_ime bus_pending bus_ack Pf Af
+  pose proof (fetch_safe sys bus_rd bus_wr bus_trig bus_ime bus_set_ime bus_pending bus_ack Pf Af Af
                 bus_rd_f bus_wr_f (fun b a Hb _ Ha => bus_trig_f b a Hb Ha) bus_set_ime_f bus_ack_f gen_tables bus_corrupt Pf
                 Pf_Pf bus_set_ime_f bus_corrupt_f cpu_init s gen_tables_ok) as F.
   assert (R0 : rwf cpu_init) by (unfold rwf, cpu_init, AluSweeps.wf_f; cbn; lia).
@@ -467,7 +473,7 @@ Proof.
   set (s1 := fst (fetch gen_tables sys bus_rd cpu_init s)) in *.
   set (b1 := snd (fetch gen_tables sys bus_rd cpu_init s)) in *.
   specialize (Fpc eq_refl).
-  destruct (run_uop_safe sys bus_rd bus_wr bus_trig bus_ime bus_set_ime bus_pending bus_ack Pf Af
+  destruct (run_uop_safe sys bus_rd bus_wr bus_trig bus_ime bus_set_ime bus_pending bus_ack Pf Af Af
               bus_rd_f bus_wr_f (fun b a Hb _ Ha => bus_trig_f b a Hb Ha) bus_set_ime_f bus_ack_f bus_corrupt Pf
               Pf_Pf bus_set_ime_f bus_corrupt_f s1 b1 F1 F2) as (R1 & R2 & R3 & R4 & R5).
   - rewrite F3b. destruct (cur s1); [congruence|cbn; lia].
@@ -475,6 +481,16 @@ Proof.
   - rewrite F5. reflexivity.
   - (* the first micro-operation reaches neither OAM nor LCDC *)
     intros u Hu a Ha. rewrite F3b in Hu.
+    pose proof (first_ok_from_tables _ F6) as Q. unfold first_ok in Q.
+    destruct (cur s1) as [|u0 rest]; [discriminate Hu|]. cbn [nth_error] in Hu. inversion Hu; subst u0.
+    apply andb_prop in Q. destruct Q as [Q1 Q2]. rewrite forallb_forall in Q1, Q2.
+    apply afb_ok.
+    destruct (snd (bus_rd s (pc cpu_init)) =? 203).
+    + apply Q2. rewrite (uop_addrs_regs u s1 (fresh_cpu 258)); [exact Ha|..]; cbn [fresh_cpu pc rh rl rb rc rd re sp u8a u8b];
+        try (rewrite Fpc; reflexivity); cbn [cpu_init pc rh rl rb rc rd re sp u8a u8b] in *; congruence.
+    + apply Q1. rewrite (uop_addrs_regs u s1 (fresh_cpu 257)); [exact Ha|..]; cbn [fresh_cpu pc rh rl rb rc rd re sp u8a u8b];
+        try (rewrite Fpc; reflexivity); cbn [cpu_init pc rh rl rb rc rd re sp u8a u8b] in *; congruence.
+  - intros u Hu a Ha0. pose proof (uop_waddrs_sub _ _ _ Ha0) as Ha. rewrite F3b in Hu.
     pose proof (first_ok_from_tables _ F6) as Q. unfold first_ok in Q.
     destruct (cur s1) as [|u0 rest]; [discriminate Hu|]. cbn [nth_error] in Hu. inversion Hu; subst u0.
     apply andb_prop in Q. destruct Q as [Q1 Q2]. rewrite forallb_forall in Q1, Q2.
